@@ -47,25 +47,44 @@ func c05Run(c *Ctx) {
 	g := stdGen()
 	g.MaxDepth = 3
 	r := c.Rng
+	// pairs and triples are compared, never addressed by path: their keys may be any string that a container
+	// can hold (every string that does not end in an index group `[digits]`, which the API itself turns into a
+	// list position — D26), so the pool also has keys with dots, brackets around non-numbers, spaces, the
+	// empty key and non-ASCII text
+	gk := *g
+	gk.Keys = append(append([]string{}, g.Keys...), "m[x]", "o[]", "s[+1]", "q]", "[0", "a.b", "", "a b", "ü", "a[1]x")
 	anyNode := func() W {
+		gg := g
+		if r.Intn(3) == 0 {
+			gg = &gk
+		}
 		switch r.Intn(6) {
 		case 0:
-			return g.Scalar(r)
+			return gg.Scalar(r)
 		case 1:
-			return g.List(r, 1)
+			return gg.List(r, 1)
 		default:
-			return g.Doc(r)
+			return gg.Doc(r)
 		}
 	}
 	for i := 0; i < c.N(3000); i++ {
 		c.Tick()
 		x := anyNode()
 		var y W
-		switch r.Intn(5) {
+		switch r.Intn(6) {
 		case 0:
 			y = anyNode()
 		case 1:
 			y = deepCopyW(x)
+		case 2:
+			// the two sides differ in one leaf only, by scalars that a sloppy comparison identifies
+			// (same text under another type, neighbours beyond 2^53, int vs float of one value)
+			if a, b, ok := withTwins(r, x); ok {
+				x, y = a, b
+				c.Dist("pair:twin-scalars")
+			} else {
+				y = deepCopyW(x)
+			}
 		default:
 			y = g.Mutate(r, x)
 		}
@@ -88,6 +107,22 @@ func c05Run(c *Ctx) {
 		c.Tick()
 		x := g.Doc(r)
 		cl := c05Clone{X: x, Edits: genDomEdits(r, g, x, 1+r.Intn(4))}
+		if r.Intn(3) == 0 {
+			// a list with a history: items appended to an EMPTY list and cleared again (its content is what it
+			// was, its representation may not be), and a non-empty list emptied by Clear
+			var ps, lists []string
+			wirePaths(x, "", &ps, &lists)
+			for _, lp := range lists {
+				if r.Intn(2) == 0 {
+					cl.Pre = append(cl.Pre, domEdit{Op: "listappend", Path: lp, V: g.Scalar(r)}, domEdit{Op: "listclear", Path: lp})
+				}
+			}
+			if len(lists) == 0 {
+				k := pick(r, g.Keys)
+				cl.Pre = append(cl.Pre, domEdit{Op: "addat", Path: k, V: []any{}}, domEdit{Op: "listappend", Path: k, V: g.Scalar(r)}, domEdit{Op: "listclear", Path: k})
+			}
+			c.Dist("clone:list-history")
+		}
 		if r.Intn(2) == 0 {
 			// give the document a history: members added to and removed again from containers
 			// (so that they are empty but once-written), then aim the later edits at them
@@ -369,6 +404,9 @@ func c05Eval(c *Ctx, kind string, raw []byte) {
 			}
 			cl := x.Clone().(dom.Container)
 			c.Direct("clone-equals-original(after history)", cl.Equals(x) && x.Equals(cl) && canon(nodeWire(cl)) == canon(nodeWire(x)), nil)
+			// a document with a history equals a freshly built document of the same content, both ways
+			fresh := wireNode(nodeWire(x))
+			c.Direct("equals-iff-structural(after history)", fresh.Equals(x) && x.Equals(fresh), nil)
 			before := canon(nodeWire(x))
 			for _, e := range p.Edits {
 				applyDomEdit(x, e)
